@@ -1,9 +1,57 @@
-(* C13: Bytecode dump and load round trip preserves the program.  (placeholder until the
-   proofs of Proofs/DumpLoadProofs.v are merged) *)
-From BCL Require Import Model.DumpLoad.
-Example C13_example :
-  let p := {| p_name := [110]; p_code := [9; 0; 2; 1]; p_consts := [VStr [97; 98]; VInt (-5); VFloat 4609434218613702656; VBool true; VNil];
-              p_pos := [3; 3; 300; 70000]; p_lfs := [5; 9] |} in
-  match dump p with Ok b => load_bytes b = Ok p | _ => False end.
-Proof. vm_compute. reflexivity. Qed.
-Print Assumptions C13_example.
+(* C13: Truncated bytecode is rejected with an error.
+
+   For every well-formed program and every cut point k < length of its dump, loading the first k
+   bytes ends in Err: not Ok (no silently shortened program), not Panic (no crash), and -- the
+   model being a total function -- not a hang.  Stated on the byte stream and, through
+   C09_load_partition_independent, for every partition of the prefix into reads. *)
+From Coq Require Import Lia.
+From BCL Require Import Model.DumpLoad Proofs.EncodingProofs Proofs.BufioProofs Proofs.DumpLoadProofs.
+Open Scope N_scope.
+
+Theorem C13_truncated : forall p b k,
+  wf_parts p -> dump p = Ok b -> (k < length b)%nat ->
+  exists e, load_bytes (firstn k b) = Err e.
+Proof. exact load_truncated. Qed.
+Print Assumptions C13_truncated.
+
+Theorem C13_truncated_any_reads : forall p b k cs,
+  wf_parts p -> dump p = Ok b -> (k < length b)%nat ->
+  Forall (fun c => c <> []) cs -> concat cs = firstn k b ->
+  exists e, load_chunks cs = Err e.
+Proof.
+  intros p b k cs Hwf Hd Hk Hne Hc. rewrite (load_chunks_eq cs Hne), Hc.
+  exact (load_truncated p b k Hwf Hd Hk).
+Qed.
+Print Assumptions C13_truncated_any_reads.
+
+(* success never depends on bytes that were not there: what loads, loads the same with more input *)
+Theorem C13_load_prefix_mono : forall a ext, (forall e, load_r aops a <> Err e) ->
+  load_r aops (a ++ ext) = match load_r aops a with Ok (p, r) => Ok (p, r ++ ext) | o => o end.
+Proof. exact load_ext. Qed.
+Print Assumptions C13_load_prefix_mono.
+
+(* all 2^16 - 1 wrong magic values, and all unsupported version pairs *)
+Theorem C13_bad_magic : forall b,
+  (forall m1 m2 rest, b = m1 :: m2 :: rest -> (m1, m2) <> (252, 108)) ->
+  exists e, load_bytes b = Err e.
+Proof. exact load_bad_header. Qed.
+Print Assumptions C13_bad_magic.
+
+Theorem C13_bad_version : forall vmaj vmin rest, vmaj <> 1 \/ 1 < vmin ->
+  exists e, load_bytes (252 :: 108 :: vmaj :: vmin :: rest) = Err e.
+Proof. exact load_bad_version. Qed.
+Print Assumptions C13_bad_version.
+
+(* non-vacuity: every proper prefix of a concrete dump is rejected (and the whole is accepted) *)
+Definition sample : parts :=
+  {| p_name := [110]; p_code := [9; 0; 2; 1];
+     p_consts := [VStr [97; 98]; VInt (-5); VFloat 4609434218613702656; VBool true; VNil];
+     p_pos := [3; 3; 300; 70000]; p_lfs := [5; 9] |}.
+Example C13_sample :
+  match dump sample with
+  | Ok b => load_bytes b = Ok sample /\
+            forallb (fun k => match load_bytes (firstn k b) with Err _ => true | _ => false end)
+                    (seq 0 (length b)) = true
+  | _ => False
+  end.
+Proof. vm_compute. split; reflexivity. Qed.
